@@ -11,6 +11,7 @@ use proptest::prelude::*;
 use serde::{Deserialize, Serialize};
 use std::panic::{AssertUnwindSafe, catch_unwind};
 use std::sync::mpsc;
+use std::collections::BTreeMap;
 use std::sync::{Arc, Mutex};
 
 metrique_writer::sink::global_entry_sink! { G0 }
@@ -601,6 +602,115 @@ pub fn check_inflight(case: &InflightCase) -> CaseResult {
 }
 
 // ---------------------------------------------------------------------------------------------
+// several threads append at the same time, each with or without its own thread-local test sink
+
+#[derive(Clone, Debug, Serialize, Deserialize)]
+pub struct ConcCase {
+    /// per thread: has a thread-local test sink, number of appends, after how many appends the
+    /// thread drops its test sink (255 = never), append kind
+    pub threads: Vec<(bool, u8, u8, u8)>,
+    pub attached: bool,
+    pub jitter: Vec<u8>,
+}
+
+pub fn check_concurrent(case: &ConcCase) -> CaseResult {
+    let _l = LOCK.lock().unwrap_or_else(|e| e.into_inner());
+    let got: Arc<Mutex<Vec<(u8, Id)>>> = Arc::new(Mutex::new(vec![]));
+    let coll = |tag: u8| BoxEntrySink::new(Collector { tag, got: got.clone() });
+    let handle = if case.attached {
+        Some(no_panic("attach", || <G0 as AttachGlobalEntrySink>::attach((coll(100), ())))?)
+    } else {
+        None
+    };
+    let nt = case.threads.len();
+    let barrier = std::sync::Barrier::new(nt);
+    // what each thread was told by try_append / observed for append
+    let results: Vec<Vec<(Id, Option<u8>, bool)>> = std::thread::scope(|s| {
+        let hs: Vec<_> = case
+            .threads
+            .iter()
+            .enumerate()
+            .map(|(t, (has_tl, n, drop_after, kind))| {
+                let barrier = &barrier;
+                let coll = &coll;
+                let jit = case.jitter.clone();
+                let attached = case.attached;
+                s.spawn(move || {
+                    let mut guard = if *has_tl { Some(G0::set_test_sink(coll(t as u8))) } else { None };
+                    barrier.wait();
+                    let mut out = vec![];
+                    for k in 0..*n {
+                        if k == *drop_after {
+                            guard = None;
+                        }
+                        if !jit.is_empty() {
+                            crate::bq::jitter(jit[(t + k as usize) % jit.len()]);
+                        }
+                        let id = Id { p: t as u32, s: k as u32 };
+                        // model destination: own thread-local sink, else the attached sink
+                        let dest = if guard.is_some() { Some(t as u8) } else if attached { Some(100u8) } else { None };
+                        let accepted = match (kind % 2, dest) {
+                            (0, _) => G0::try_append(TestE(id)).is_ok(),
+                            // append() may panic with nothing attached: only used with a destination
+                            (_, Some(_)) => {
+                                <G0 as GlobalEntrySink>::append(TestE(id));
+                                true
+                            }
+                            (_, None) => G0::try_append(TestE(id)).is_ok(),
+                        };
+                        out.push((id, dest, accepted));
+                    }
+                    drop(guard);
+                    out
+                })
+            })
+            .collect();
+        hs.into_iter().map(|h| h.join().unwrap_or_default()).collect()
+    });
+    drop(handle);
+    let got = got.lock().unwrap().clone();
+    let mut classes: Classes = vec![];
+    for per_thread in &results {
+        let mut last_pos: BTreeMap<u8, usize> = BTreeMap::new();
+        for (id, dest, accepted) in per_thread {
+            let hits: Vec<(usize, u8)> = got.iter().enumerate().filter(|(_, (_, x))| x == id).map(|(i, (tag, _))| (i, *tag)).collect();
+            match dest {
+                Some(d) => {
+                    vensure!(*accepted, "global:wrong-append-outcome", "entry {id:?} had destination {d} but the append was refused");
+                    vensure!(
+                        hits.len() == 1 && hits[0].1 == *d,
+                        "global:wrong-destination",
+                        "entry {id:?} appended concurrently with {} other threads: expected exactly once in sink {d} (100 = attached, else the thread's own test sink), found in {:?}",
+                        nt - 1,
+                        hits.iter().map(|h| h.1).collect::<Vec<_>>()
+                    );
+                    // per thread and destination the order is the append order
+                    let lp = last_pos.entry(*d).or_insert(0);
+                    vensure!(hits[0].0 >= *lp, "global:order-not-kept", "entry {id:?} reached sink {d} before an earlier entry of the same thread");
+                    *lp = hits[0].0;
+                }
+                None => {
+                    vensure!(!*accepted, "global:wrong-append-outcome", "entry {id:?} had no destination but try_append returned Ok");
+                    vensure!(hits.is_empty(), "global:wrong-destination", "entry {id:?} had no destination but was written to {:?}", hits);
+                    classes.push("handed-back");
+                }
+            }
+        }
+    }
+    let total: usize = results.iter().map(|r| r.iter().filter(|x| x.1.is_some()).count()).sum();
+    vensure!(got.len() == total, "global:wrong-destination", "{} entries collected, {total} had a destination", got.len());
+    let with_tl = case.threads.iter().filter(|t| t.0).count();
+    if nt >= 2 && with_tl >= 1 && with_tl < nt {
+        classes.push("threads-with-and-without-own-test-sink");
+        classes.push("nt");
+    }
+    if case.threads.iter().any(|t| t.0 && t.2 < t.1) {
+        classes.push("test-sink-dropped-while-others-append");
+    }
+    Ok(classes)
+}
+
+// ---------------------------------------------------------------------------------------------
 // AttachHandle::forget is irreversible for a static: one history per child process
 
 pub fn child_forget(arg: &str) -> i32 {
@@ -727,6 +837,24 @@ pub fn run(ctx: &mut Ctx) {
         .shrink_iters(10),
         || (any::<u8>(), any::<u8>(), 0u8..5).prop_map(|(kind, hold_ms, before)| InflightCase { kind, hold_ms, before }),
         check_inflight,
+    );
+    ctx.explore(
+        SubCfg::new(
+            "c17-concurrent-appends",
+            "2-4 threads released together by a barrier, each with or without its own thread-local test sink (which it may drop after k of its appends), append 0-40 entries each (try_append or append) to one global that is attached or not. Oracle: every entry is found exactly once in exactly the sink the precedence names for the appending thread at that moment (its own test sink, else the attached sink, else handed back), per thread and sink in append order; nothing crosses between threads. Non-trivial = threads with and without an own test sink append at the same time",
+            if q { 2_000 } else { 40_000 },
+        )
+        .shrink_iters(60)
+        .mandatory(&["threads-with-and-without-own-test-sink", "test-sink-dropped-while-others-append", "handed-back"]),
+        || {
+            (
+                prop::collection::vec((any::<bool>(), 0u8..40, prop_oneof![Just(255u8), 0u8..40], any::<u8>()), 2..5),
+                prop::bool::weighted(0.7),
+                prop::collection::vec(any::<u8>(), 0..5),
+            )
+                .prop_map(|(threads, attached, jitter)| ConcCase { threads, attached, jitter })
+        },
+        check_concurrent,
     );
     if ctx.replay.is_none() {
         forget_children(ctx);
